@@ -80,7 +80,8 @@ class IOWorld(Machine):
                        "refused_foreign", "refused_dirty", "overwrite_longer_by_shorter", "multi_dot_name", "pkl_gz_roundtrip",
                        "float_image", "uint8_image_roundtrip", "import_export_reimport", "nan_landmark", "manager_ge2_groups",
                        "unicode_label", "spelling_0", "spelling_1", "spelling_2", "spelling_3", "spelling_4", "spelling_5",
-                       "clean_path_read_back_later", "path_reduce_restored", "pts_roundtrip", "empty_edge_set")
+                       "clean_path_read_back_later", "path_reduce_restored", "pts_roundtrip", "empty_edge_set",
+                       "pts_large_coordinates")
 
     @classmethod
     def swarm(cls, rng, tier):
@@ -420,7 +421,10 @@ class IOWorld(Machine):
         pts = (op["ext"] % 3 == 1)
         if pts:
             g = rs(op["seed"])
-            obj = PointCloud(g.uniform(-20, 300, size=(int(g.randint(1, 9)), 2)))
+            span = [300.0, 300.0, 3000.0, 40000.0][op["kind"] % 4]   # thumbnails up to multi-megapixel images
+            obj = PointCloud(g.uniform(-20, span, size=(int(g.randint(1, 9)), 2)))
+            if span > 1000:
+                self.ctx.probe("pts_large_coordinates")
             rel = self.relname(op, ".pts")
             kind = "pts"
         else:
